@@ -272,15 +272,19 @@ func (s *c13Side) sync() bool {
 	}
 	// the barrier's handler signals from inside handleReq: wait until the barrier's OWN per-ID lock
 	// entry is gone (only that key is looked at, so a leaked entry of another ID is not waited for)
-	deadline := time.Now().Add(c13Watch)
+	// If it never goes (a lock map that does not delete), carry on: the sizes then show the entry.
+	deadline := time.Now().Add(c13OwnLockWait)
 	for s.mutexHasKey(int32(mid & 0xffff)) {
 		if time.Now().After(deadline) {
-			return false
+			c13OwnLockWait = 20 * time.Millisecond
+			break
 		}
 		time.Sleep(50 * time.Microsecond)
 	}
 	return true
 }
+
+var c13OwnLockWait = 10 * time.Second
 
 // mutexHasKey reports whether msgIDMutex holds an entry for the message ID (private fields, read under the map's lock).
 func (s *c13Side) mutexHasKey(mid int32) bool {
